@@ -1,2 +1,3 @@
+@spike.setter
 def spec(self, value):
     self.spike_.push(value.bool(), self.inplace)
